@@ -224,6 +224,10 @@ async fn run_one(i: usize, b: Value) -> anyhow::Result<Value> {
             "publish" => {
                 let key = key_of(&s["k"]);
                 let ty = s["ty"].as_str().unwrap_or("");
+                if s["echo"] == json!(true) {
+                    // this node routed the publish to the leader and echoes the value before the committed entry arrives
+                    cx.addr.send(ConfigCmd::SetTmpValue(key_of(&s["k"]), Arc::new(s["v"].as_str().unwrap().to_string()))).await??;
+                }
                 cx.addr.send(ConfigRaftCmd::ConfigAdd { key: build_key(&key), value: Arc::new(s["v"].as_str().unwrap().to_string()), config_type: if ty.is_empty() { None } else { Some(Arc::new(ty.to_string())) }, desc: None, history_id: s["hid"].as_u64().unwrap(), history_table_id: s["hid"].as_u64(), op_time: 1000 + k as i64, op_user: None }).await??;
             }
             "remove" => {
